@@ -233,9 +233,12 @@ def design_driver(m, i, nshards, tier):
                 for fn in ("C", "T", "S"):
                     for opt in opts:
                         if fn == "C" and opt is not None:
-                            texts = [(f"C({col}, Treatment({opt!r}), levels=lv)", "T"), (f"C({col}, Sum({opt!r}), lv)", "S")]
+                            texts = [(f"C({col}, Treatment({opt!r}), levels=lv)", "T"), (f"C({col}, Sum({opt!r}), lv)", "S"),
+                                     # a box inside a box: the inner one states the levels, the outer one the contrast
+                                     (f"C(C({col}, levels=lv), Treatment({opt!r}))", "T"), (f"C(C({col}, levels=lv), Sum({opt!r}))", "S")]
                         elif fn == "C":
-                            texts = [(f"C({col}, levels=lv)", "T"), (f"C({col}, Sum, levels=lv)", "S"), (f"C({col}, Treatment, lv)", "T")]
+                            texts = [(f"C({col}, levels=lv)", "T"), (f"C({col}, Sum, levels=lv)", "S"), (f"C({col}, Treatment, lv)", "T"),
+                                     (f"C(C({col}, levels=lv), Sum)", "S"), (f"C(C({col}, levels=lv))", "T")]
                         elif fn == "T":
                             texts = [(f"T({col}, {opt!r}, lv)" if opt is not None else f"T({col}, levels=lv)", "T")]
                         else:
@@ -321,6 +324,30 @@ def design_driver(m, i, nshards, tier):
                     m.violation("options-honoured", f"T({col}, 'not-a-level') accepted", key="unknown-reference")
                 except Exception:
                     pass
+    # an object column mixing Python ints and floats: levels sort as numbers, whatever their type
+    if i == 1 % nshards:
+        mixed = [1, 2.5, 3, 10, 0.5, 7]
+        for nlev in (3, 4, 6):
+            lv_sorted = sorted(mixed[:nlev])
+            vals = [mixed[j % nlev] for j in rng.permutation(3 * nlev)]
+            dfm = pd.DataFrame({"y": rng.normal(size=len(vals)), "mx": pd.Series(vals, dtype=object)})
+            rows = np.asarray(vals, dtype=object)
+            for text, kept, minus in ((f"C(mx)", lv_sorted[1:], None), ("0 + C(mx)", lv_sorted, None), ("S(mx)", lv_sorted[:-1], lv_sorted[-1]),
+                                      (f"T(mx, {lv_sorted[1]!r})", [l for l in lv_sorted if l != lv_sorted[1]], None)):
+                case = {"formula": "y ~ " + text, "levels": [repr(l) for l in lv_sorted], "column": "mx", "option": "mixed-numbers"}
+                m.case(case, canon=[text, case["levels"], "mixed"], nontrivial=True)
+                m.ev("options-honoured")
+                try:
+                    dmm = formulae.design_matrices("y ~ " + text, dfm)
+                    name = text.replace("0 + ", "")
+                    X = np.asarray(dmm.common[name], dtype=float)
+                    want = np.column_stack([(rows == l).astype(float) - ((rows == minus).astype(float) if minus is not None else 0.0) for l in kept])
+                    labels = [f"{name}[{l}]" for l in kept]
+                    if X.shape != want.shape or not np.array_equal(X, want) or list(dmm.common.terms[name].labels) != labels:
+                        m.violation("options-honoured", f"{text} on an object column holding {lv_sorted}: levels are not in numeric order "
+                                    f"(labels {dmm.common.terms[name].labels})", case=case, key="mixed-number-levels")
+                except Exception as e:
+                    m.violation("options-honoured", f"{text} on an object column holding {lv_sorted}: {type(e).__name__}: {e}", case=case, key="raises")
     # one encoding object shared by two factors with different levels
     if i == 0:
         from formulae.categorical import Sum, Treatment
